@@ -13,6 +13,7 @@ sys.path.insert(0, str(HERE))
 
 import core      # noqa: E402
 import leanside  # noqa: E402
+import wnenv     # noqa: E402,F401  (binds `wn` to the tree under test — $WN_REPO or /repo — before anything forks)
 
 
 def main():
